@@ -340,6 +340,12 @@ def judge_abandoned(out, entries, res, domain, workname, what=('ok', 'msgs'), pe
             bad.append('verdict')
         if 'msgs' in what and spec_msgs != real_msgs:
             bad.append('messages')
+        if 'calls' in what:
+            # the order in which the rules' functors ran (all of them: reduction order is part of the property)
+            spec_calls = [n['sym'] for n in v['nodes'] if n['k'] == 1]
+            real_calls = [ev[1] for ev in t['events'] if ev[0] in ('call', 'ccall')]
+            if spec_calls != real_calls:
+                bad.append('order of functor calls')
         if ('tree' in what or 'positions' in what) and v['status'] == 'acc' and t['ok'] and t.get('tree') is not None:
             # the result tree by structure (rule / term, lexeme slice) and, for 'positions', the source points of its leaves
             pos = 'positions' in what
@@ -487,6 +493,9 @@ def check_C09(tier, seed):
             entries.append(pipeline.host_entry(g, 0))
         except ValueError:
             pass
+    # character terms that are not printable: their display names ('\\x01', '\\x11', '\\x81') appear in the messages
+    entries += entries_for(gram.Grammar('ctl_terms', ['S'], ['a', '\x01', '\x11', '\x81'], 'S',
+                                        [('S', ['S', 'a', '\x01'], 0), ('S', ['S', '\x11'], 0), ('S', ['\x81'], 0)]), hosts=())
     # a declared nonterminal WITHOUT rules standing before one that has rules (rule slices are built per nonterminal)
     gap = [g for g in gengram.small_grammars(stride=53, limit=4000, nts=('S', 'A', 'B'), ts=('a', 'b'), max_rules=3, max_rhs=2)
            if not any(l == 'A' for (l, _, _) in g.rules) and any(l == 'B' for (l, _, _) in g.rules)]
@@ -1101,6 +1110,11 @@ def grammar_wf_check(tier, work):
     add('undeclared_term_extends_declared', ['S', 'A'], ['a', 'b'], 'S', base_rules + [('A', ['ab', 'b'])], ['S', 'A'], ['a', 'b', 'ab'])
     add('undeclared_term_prefix_of_declared', ['S', 'A'], ['ab', 'b'], 'S', [('S', ['A', 'ab']), ('S', ['b']), ('A', ['a', 'A']), ('A', [])], ['S', 'A'], ['ab', 'b', 'a'])
     add('undeclared_lhs_extends_declared', ['S'], ['a', 'b'], 'S', [('S', ['a']), ('SS', ['b'])], ['S', 'SS'], ['a', 'b'])
+    # non-printable character terms: their ids are the two-digit hex names (both digits matter)
+    add('undeclared_ctl_term_same_low_nibble', ['S', 'A'], ['\x01', 'b'], 'S', [('S', ['A', '\x01']), ('S', ['b']), ('A', ['\x11', 'A']), ('A', [])], ['S', 'A'], ['\x01', 'b', '\x11'])
+    add('undeclared_ctl_term_same_high_nibble', ['S', 'A'], ['\x12', 'b'], 'S', [('S', ['A', '\x12']), ('S', ['b']), ('A', ['\x13', 'A']), ('A', [])], ['S', 'A'], ['\x12', 'b', '\x13'])
+    add('undeclared_high_bit_term', ['S', 'A'], ['\xc3', 'b'], 'S', [('S', ['A', '\xc3']), ('S', ['b']), ('A', ['\xa3', 'A']), ('A', [])], ['S', 'A'], ['\xc3', 'b', '\xa3'])
+    add('ok_ctl_terms_all_declared', ['S'], ['\x01', '\x11', '\x81'], 'S', [('S', ['\x01', '\x11']), ('S', ['\x81'])], ['S'], ['\x01', '\x11', '\x81'])
     add('ok_prefix_names_all_declared', ['S', 'SS'], ['a', 'ab'], 'S', [('S', ['SS', 'a']), ('SS', ['ab'])], ['S', 'SS'], ['a', 'ab'])
     items = []
     jobs = []
@@ -1113,7 +1127,11 @@ def grammar_wf_check(tier, work):
         for n, var in ntv.items():
             body.append('nterm<int> %s("%s");' % (var, n))
         for t, var in tv.items():
-            body.append('char_term %s(\'%s\');' % (var, t) if len(t) == 1 else 'string_term %s("%s");' % (var, t))
+            if len(t) == 1:
+                o1 = ord(t)
+                body.append('char_term %s(\'%s\');' % (var, t) if 32 < o1 < 127 and t not in "'\\" else 'char_term %s(char(%d));' % (var, o1 if o1 < 128 else o1 - 256))
+            else:
+                body.append('string_term %s("%s");' % (var, t))
         rl = ['%s(%s) >= [](auto&&...) { return 0; }' % (ntv[r['l']], ', '.join(ntv[x] if x in ntv else tv[x] for x in r['r'])) for r in v['rules']]
         pexpr = 'parser(%s, terms(%s), nterms(%s), rules(%s))' % (ntv[v['root']], ', '.join(tv[t] for t in v['terms']), ', '.join(ntv[n] for n in v['nterms']), ', '.join(rl))
         rt = decl + ['int main() { try {'] + ['  ' + b for b in body] + ['  auto* p = new auto(%s); (void)p; printf("CONSTRUCTED\\n"); return 0;' % pexpr,
@@ -1464,6 +1482,10 @@ def check_C06(tier, seed):
             pipeline.add_jobs(e, ins, buf=b, verbose=False, tag='b%d_' % b)
         for b in (0, 1):
             pipeline.add_jobs(e, edge, buf=b, verbose=False, tag='e%d_' % b)
+        if n in ('right_rec_empty', 'paren'):
+            # stacks deeper than 2^16 entries (indexes kept in 16-bit integers elsewhere in the library must not leak here)
+            d = 70000
+            pipeline.add_jobs(e, [[ord('(')] * d + [ord('x')] + [ord(')')] * d] if n == 'paren' else [[ord(g.ts[0])] * d], buf=0, verbose=False, tag='d16_')
         big.append(e)
     nbig = 0
     for (label, binp, env) in (('plain', hostbins['host0'], {'VERIF_LIGHT': '1'}), ('asan+ubsan', asan, {'VERIF_LIGHT': '1', 'ASAN_OPTIONS': 'detect_leaks=0:abort_on_error=0', 'VERIF_JOB_TIMEOUT': '120'})):
@@ -2001,6 +2023,9 @@ def check_C13(tier, seed):
     res, work = prun.run(entries, 'C13', design_L=None, do_product=False, tlc_procs=4 if tier == 'quick' else 8, tlc_workers=4 if tier == 'quick' else 2)
     domain = {e.gid for e in entries}
     judge_traces(out, entries, res, {'functor', 'context-mutations', 'tree', 'verdict', 'extra:ccall', 'extra:call', 'threw'}, domain)
+    # traces abandoned at a table difference (e.g. a precedence lost together with the way a functor was attached): the
+    # functors must still have run in the specification's reduction order
+    judge_abandoned(out, entries, res, domain, 'C13ab', what=('ok', 'calls'))
     # grammars that ignore the context: parse() and context_parse() give the same result
     ncmp = 0
     for e in entries:
